@@ -55,10 +55,11 @@ def slim(ev):
     return e
 
 
-def run_cases(cases, tag, seed, nproc, layouts=(0, 1, 2), facade=False, share=True):
+def run_cases(cases, tag, seed, nproc, layouts=(0, 1, 2), facade=False, share=True, via_request=False):
     jobs = jobs_for(cases, seed, layouts)
     for j in jobs:
         j["facade"] = facade
+        j["args_via_request"] = via_request
     results = core.run_driver(jobs)
     # the same cases once more on compiler instances shared by all the cases of the process (one per configuration): what
     # an instance compiled before must not show in what it compiles next
@@ -262,6 +263,14 @@ def check_c02(tier, seed):
         return sig if b["why"] == "accepted" else f"{sig}|{c['slot']}"
 
     collect(rep, tr, cases, jobs, lambda b: b["why"] in ("accepted", "field", "rejected", "panic", "balance", "repro"), sigx)
+    # once more with the integer arguments arriving as JSON number literals through the service's own coercion (what it
+    # refuses is supplied typed): a quantity that crosses the request boundary is still the quantity of the template
+    jobs_r, evs_r, tr_r = run_cases(cases, "c02_req", seed, 8 if quick else 12, layouts=(0,), share=False, via_request=True)
+    rep.add_trace(tr_r)
+    rep.evaluations += len(cases)
+    collect(rep, tr_r, cases, jobs_r, lambda b: b["why"] in ("accepted", "field", "rejected", "panic", "balance"),
+            # (an accepted out-of-range quantity is the same call site whichever way the argument came in)
+            lambda sig, b, c: sigx(sig, b, c) + ("" if b["why"] == "accepted" else "|via-request"))
     canary(rep, evs, "c02")
     k = len(cases) // 2
     rep.samples = [{"source": jobs[k]["sources"][0][-300:], "n": cases[k]["env"]["args"]["n"], "denotes": cases[k]["expect"], "why": cases[k].get("why")}]
